@@ -241,6 +241,7 @@ inductive Err where
   | updateBlockWrite | updateFFBlockWrite | updateFFNonTop
   | invalidConnection | multiWriter | noWriter
   | signalType (k : Nat)
+  | invalidFuncCall
 deriving DecidableEq, Repr
 
 def Err.pyClass : Err → String
@@ -251,6 +252,7 @@ def Err.pyClass : Err → String
   | .multiWriter => "MultiWriterError"
   | .noWriter => "NoWriterError"
   | .signalType k => s!"SignalTypeError:{k}"
+  | .invalidFuncCall => "InvalidFuncCallError"
 
 /-- state of a round: marks, resolved nets `(writer, net)`, nets still without a writer -/
 structure RState where
@@ -448,5 +450,70 @@ def Design.wf (D : Design) : Bool :=
     b.writes.all (fun w => decide (w.1 < D.objs.length) && ((D.obj w.1).kind != .const)) &&
     b.reads.all (fun r => decide (r < D.objs.length))) &&
   D.objs.all (fun o => decide (o.host < D.par.length))
+
+/-! ## 7. `@s.func` helper functions (`ComponentLevel2._collect_vars`)
+
+An update block also reads and writes whatever the helper functions it calls, directly or through
+other helpers, read and write: `_collect_vars` walks the calls depth first and adds
+`func_reads[u]` / `func_writes[u]` of every function it reaches to the block, and raises
+`InvalidFuncCallError` when a function on the current call path is called again. The operator rules
+are not applied to the statements of helper functions (`extract_obj_from_names` is called without
+`is_write` for them); the flattened block gets them with the block's own legal operator. -/
+
+structure Func where
+  writes : List Nat
+  reads : List Nat
+  calls : List Nat
+deriving Repr
+
+instance : Inhabited Func := ⟨⟨[], [], []⟩⟩
+
+/-- a design whose update blocks call helper functions: `bcalls[i]` = functions called directly by
+block `i` of `base` (whose own `writes`/`reads` are the statements of the block itself) -/
+structure HDesign where
+  base : Design
+  funcs : List Func
+  bcalls : List (List Nat)
+deriving Repr
+
+def HDesign.callees (H : HDesign) (f : Nat) : List Nat := (H.funcs.getD f default).calls
+
+/-- one round: add the callees of everything collected so far -/
+def dstep (succ : Nat → List Nat) (S : List Nat) : List Nat :=
+  S ++ dedup ((S.flatMap succ).filter (fun b => decide (b ∉ S)))
+
+def dclosed (succ : Nat → List Nat) (S : List Nat) : Bool :=
+  (S.flatMap succ).all (fun b => decide (b ∈ S))
+
+def dclosure (succ : Nat → List Nat) : Nat → List Nat → List Nat
+  | 0, S => S
+  | f+1, S => if dclosed succ S then S else dclosure succ f (dstep succ S)
+
+/-- the functions a block reaches: closure of its direct calls under "calls" -/
+def HDesign.reached (H : HDesign) (roots : List Nat) : List Nat :=
+  dclosure H.callees H.funcs.length (dedup roots)
+
+/-- a function on some call path from an update block that can reach itself again -/
+def HDesign.callCycle (H : HDesign) : Bool :=
+  H.bcalls.any (fun roots => (H.reached roots).any (fun f => decide (f ∈ H.reached (H.callees f))))
+
+/-- the design the later stages see: every block with the reads and writes of the functions it reaches -/
+def HDesign.flatten (H : HDesign) : Design :=
+  { H.base with blks := H.base.blks.mapIdx (fun i b =>
+      let fs := H.reached (H.bcalls.getD i [])
+      { b with writes := b.writes ++ fs.flatMap (fun f => (H.funcs.getD f default).writes.map (fun o => (o, if b.ff then Op.ff else Op.at))),
+               reads := b.reads ++ fs.flatMap (fun f => (H.funcs.getD f default).reads) }) }
+
+/-- operator rules on the blocks' own statements, call cycles, then everything else on the flattened design -/
+def elaborateH (H : HDesign) : Outcome :=
+  let e1 := opErrs H.base
+  if !e1.isEmpty then ⟨1, e1, [], []⟩ else
+  if H.callCycle then ⟨8, [.invalidFuncCall], [], []⟩ else
+  elaborate H.flatten
+
+def HDesign.wf (H : HDesign) : Bool :=
+  H.flatten.wf && decide (H.bcalls.length = H.base.blks.length) &&
+  H.bcalls.all (fun cs => cs.all (fun f => decide (f < H.funcs.length))) &&
+  H.funcs.all (fun fn => fn.calls.all (fun f => decide (f < H.funcs.length)))
 
 end PV.Nets
